@@ -37,7 +37,11 @@ Theorem src_into_unit_conforms :
   forall (u t : tunit) (x : Z), src_into_unit_fn u t x = Time.into_unit u t x.
 Proof.
   intros u t x. unfold src_into_unit_fn, Time.into_unit.
-  destruct u, t; cbn [unit_eqb andb src_into_unit_same_unit_is_identity src_into_unit_nat_guard];
+  destruct u, t;
+    match goal with
+    | |- context [src_arm ?a ?b] => let v := eval vm_compute in (src_arm a b) in change (src_arm a b) with v
+    end;
+    cbv [src_into_unit_same_unit_is_identity src_into_unit_nat_guard unit_eqb andb src_eval];
     try reflexivity; destruct (Time.is_nat x); reflexivity.
 Qed.
 
@@ -89,7 +93,13 @@ Theorem src_parse_units_conform :
     | Some (acc, add, k) => src_apply acc add k n a = Parse.apply_unit u n a
     | None => False
     end.
-Proof. intros u n a. destruct u; vm_compute src_unit; cbv beta iota; reflexivity. Qed.
+Proof.
+  intros u n a.
+  destruct u;
+    match goal with
+    | |- context [src_unit ?s] => let v := eval vm_compute in (src_unit s) in change (src_unit s) with v
+    end; cbv beta iota; reflexivity.
+Qed.
 
 Print Assumptions src_into_unit_conforms.
 Print Assumptions src_parse_units_conform.
